@@ -338,7 +338,7 @@ Qed.
 (** Non-vacuity: a concrete unauthenticated POST that is refused, and the same
     request with a valid cookie that reaches the handler. *)
 Definition ex_env : env :=
-  {| e_first_run := false; e_auth_required := true; e_https := false; e_force_https := false;
+  {| e_first_run := false; e_auth_present := true; e_users := true; e_https := false; e_force_https := false;
      e_now := 1000; e_ttl := 3600 |}.
 Definition ex_path : bytes := [47;99;111;110;116;114;111;108;47;115;116;97;116;117;115]%N.
 Definition ex_req (c : cookie) : request :=
@@ -355,6 +355,82 @@ Example chain_premises_satisfiable :
   snd (apply_chain (http_register_chain str_POST) ex_handler ex_env ex_world (ex_req (CTok 7))) = AHandler tt /\
   snd (apply_chain (http_register_chain str_GET) ex_handler ex_env ex_world (ex_req (CTok 7))) = AStatus 405.
 Proof. vm_compute. auto. Qed.
+
+(** * Start-up glue *)
+
+(** With the four syntactic facts in place: users configured and the session
+    database cannot be opened => the process exits, no listener is created. *)
+Theorem startup_fails_closed k b :
+  boot_code_ok k = true -> b_users b = true -> b_db_opens b = false -> boot k b = BootFatal.
+Proof.
+  unfold boot_code_ok, boot, init_users, init_auth. rewrite !andb_true_iff.
+  intros [[[[-> ->] ->] ->] _] _ ->. reflexivity.
+Qed.
+
+(** Whenever requests are served at all, the Auth object is there and
+    optionalAuth's [authRequired] is "users are configured". *)
+Theorem startup_serves_with_auth k b p u :
+  boot_code_ok k = true -> boot k b = BootServe p u -> b_db_opens b = true /\ p = true /\ u = b_users b.
+Proof.
+  unfold boot_code_ok, boot, init_users, init_auth. rewrite !andb_true_iff.
+  intros [[[[-> ->] ->] ->] _]. destruct (b_db_opens b); cbn; [|discriminate].
+  intros [= <- <-]. auto.
+Qed.
+
+Corollary startup_auth_required k b e :
+  boot_code_ok k = true -> b_users b = true -> env_after (boot k b) e -> e_auth_required e = true.
+Proof.
+  intros Hk Hu He. destruct (boot k b) as [|p u] eqn:E; [destruct He|].
+  destruct (startup_serves_with_auth k b p u Hk E) as (_ & -> & ->).
+  destruct He as [Hp Hus]. unfold e_auth_required. rewrite Hp, Hus, Hu. reflexivity.
+Qed.
+
+(** Start-up and middleware together: with users configured, in whatever
+    state the session database is, either nothing is served or every request
+    without credentials for a non-public path is refused by any chain that
+    contains optionalAuth. *)
+Theorem startup_then_guarded {A R} k b :
+  boot_code_ok k = true -> b_users b = true ->
+  boot k b = BootFatal \/
+  forall e ws (w : world A) r,
+    env_after (boot k b) e -> In WOptionalAuth ws ->
+    is_public (r_path r) = false -> authenticated e (w_sess w) r = false ->
+    exists w' (a : answer R), blocks (apply_chain ws) e w r w' a /\ session_effect e w r w'.
+Proof.
+  intros Hk Hu. destruct (boot k b) eqn:E; [left; reflexivity|right].
+  intros e ws w r He Hin Hpub Hauth. apply guarded_chain_blocks; auto.
+  apply (startup_auth_required k b); auto. rewrite E. exact He.
+Qed.
+
+(** Each of the facts is needed: drop the nil check, or return a nil error
+    from it, or do not stop on the error, and a configuration with users and
+    an unreadable session database serves every route to anybody. *)
+Definition slip_ret_nil_err : boot_code :=
+  {| bc_nil_checked := true; bc_fail_ret_err := false; bc_run_fatal := true; bc_fatal_exits := true; bc_assigns_ok := true |}.
+Definition slip_no_fatal : boot_code :=
+  {| bc_nil_checked := true; bc_fail_ret_err := true; bc_run_fatal := false; bc_fatal_exits := true; bc_assigns_ok := true |}.
+Definition slip_no_nil_check : boot_code :=
+  {| bc_nil_checked := false; bc_fail_ret_err := true; bc_run_fatal := true; bc_fatal_exits := true; bc_assigns_ok := true |}.
+
+Example startup_slips_refuted :
+  let b := {| b_users := true; b_db_opens := false |} in
+  Forall (fun k =>
+    boot k b = BootServe false false /\
+    let e := with_boot false false ex_env in
+    env_after (boot k b) e /\
+    authenticated e (w_sess ex_world) (ex_req CNone) = false /\
+    snd (apply_chain (http_register_chain str_POST) ex_handler e ex_world (ex_req CNone)) = AHandler tt)
+  [slip_ret_nil_err; slip_no_fatal; slip_no_nil_check].
+Proof. cbn zeta. repeat constructor. Qed.
+
+Example startup_premises_satisfiable :
+  let k := {| bc_nil_checked := true; bc_fail_ret_err := true; bc_run_fatal := true; bc_fatal_exits := true; bc_assigns_ok := true |} in
+  boot_code_ok k = true /\
+  boot k {| b_users := true; b_db_opens := false |} = BootFatal /\
+  boot k {| b_users := true; b_db_opens := true |} = BootServe true true /\
+  boot k {| b_users := false; b_db_opens := true |} = BootServe true false /\
+  env_after (boot k {| b_users := true; b_db_opens := true |}) ex_env.
+Proof. cbn. repeat split. Qed.
 
 (** * Bindings, muxes, servers *)
 
